@@ -24,6 +24,12 @@ def check_actives(plan, impl, out):
     asts = framer_asts(plan)
     # which auxiliaries are running (have a frame entered and not exited) — known only for auxiliaries all of whose frames record both ends
     recorded = dict((fr["name"], all(_has_rec(fr, f["name"], "enter") and _has_rec(fr, f["name"], "exit") for f in fr["frames"])) for fr in asts.values())
+    refs = {}
+    for fr in asts.values():
+        for f in fr["frames"]:
+            for a in f["acts"]:
+                if a["k"] == "aux":
+                    refs[a["name"]] = refs.get(a["name"], 0) + 1
     open_frames = {}
     for e in impl:
         if e[1] == "rec" and e[5] in ("enter", "exit"):
@@ -40,6 +46,19 @@ def check_actives(plan, impl, out):
                 return
             full = outline_of(asts[name], active)
             if actives == full:
+                # ... unless a conditional auxiliary of a frame above the leaf is running: then the chain must be cut there.
+                # Judged only for auxiliaries named by exactly one frame of the whole program (no doubt about the owner) whose
+                # frames all record both ends (so 'running' can be read off the trace).
+                for fname in full[:-1]:
+                    for f in asts[name]["frames"]:
+                        if f["name"] != fname:
+                            continue
+                        for a in f["acts"]:
+                            if a["k"] == "aux" and a.get("needs") and refs.get(a["name"]) == 1 and recorded.get(a["name"]) and open_frames.get(a["name"]):
+                                out.violate("actives", "active frames are not cut at the main frame of a running conditional auxiliary",
+                                            "tick %d framer %s active %s: actives %r although conditional auxiliary %s of frame %s is running (entered frames %r)"
+                                            % (e[0], name, active, actives, a["name"], fname, sorted(open_frames[a["name"]])))
+                                return
                 continue
             if actives and actives == full[:len(actives)] and actives[-1] in caux_mains(asts[name]) and full.index(actives[-1]) >= full.index(active) - len(full):
                 cauxes = [a["name"] for f in asts[name]["frames"] if f["name"] == actives[-1] for a in f["acts"] if a["k"] == "aux" and a.get("needs")]
